@@ -97,7 +97,17 @@ def cases(d):
     order = d.sample(tv, len(tv))
     for _ in range(d.randint(0, 4)):
         order.append(d.choice(tv))
-    return case_for(w, bins, order)
+    case = case_for(w, bins, order)
+    if d.chance(30):
+        # ignore / illegal bins beside the wildcard bins: the values they name are removed from the wildcard bins too
+        cp = case["cg"]["cps"][0]
+        key = d.choice(["ignore", "illegal"])
+        items = []
+        for _ in range(d.randint(1, 2)):
+            a = d.randint(0, (1 << w) - 1)
+            items.append(a if d.chance(60) else [a, min((1 << w) - 1, a + d.randint(0, 3))])
+        cp[key] = [{"name": "x0", "items": items}]
+    return case
 
 
 def has_class(case, fn):
